@@ -255,13 +255,14 @@ func buildPartStructure(partMsg string) string {
 
 	// Get Content-Disposition and filename
 	disposition := extractHeader(partMsg, "Content-Disposition")
-	var dispList string
+	dispList := "NIL"
 	if disposition != "" {
-		dispType, dispParams, _ := mime.ParseMediaType(disposition)
-		dispParamList := buildParamList(dispParams)
-		dispList = fmt.Sprintf("(%s %s)", QuoteOrNIL(strings.ToUpper(dispType)), dispParamList)
-	} else {
-		dispList = "NIL"
+		// A disposition that does not parse has no type to report: the field
+		// is NIL then, never (NIL NIL) (RFC 3501 body-fld-dsp starts with a string)
+		if dispType, dispParams, _ := mime.ParseMediaType(disposition); dispType != "" {
+			dispParamList := buildParamList(dispParams)
+			dispList = fmt.Sprintf("(%s %s)", QuoteOrNIL(strings.ToUpper(dispType)), dispParamList)
+		}
 	}
 
 	// Count lines for text types
